@@ -117,6 +117,14 @@ def run(ctx):
                                                 False), ('lit', 'z', '"z"')))
         cells[(s0, 8, 5)] = ('f', ('call', 'ISERROR', [
             ('ref', None, 8, 3, False, False)]))
+        # every kind of error value as a computed (then stored) result
+        cells[(s0, 8, 6)] = ('f', ('call', 'NA', []))
+        for j_, code_ in enumerate(('#REF!', '#NAME?', '#NUM!', '#NULL!',
+                                    '#VALUE!', '#N/A')):
+            cells[(s0, 9, 1 + j_)] = ('f', ('bin', '+', ('lit', ref.Err(
+                code_), code_), ('lit', 0, '0')))
+        cells[(s0, 8, 7)] = ('f', ('call', 'ISERROR', [
+            ('ref', None, 8, 6, False, False)]))
         names = {}
         if use_xlsx:
             k = rng.choice(m.inputs)
@@ -125,6 +133,11 @@ def run(ctx):
             names['NmRange'] = ('rng', s0, 1, 1, 2, rows, (True,) * 4)
             fk = rng.choice(m.formulas)
             names['NmFormula'] = ('ref', fk[0], fk[1], fk[2], True, True)
+            # formulas that USE the names
+            cells[(s0, 10, 1)] = ('f', ('bin', '+', ('call', 'SUM', [
+                ('name', 'NmRange')]), ('name', 'NmCell')))
+            cells[(s0, 10, 2)] = ('f', ('bin', '*', ('name', 'NmFormula'),
+                                        ('lit', 2, '2')))
         wb = ref.Workbook(cells, names)
         xpath = os.path.join(out, f's{ctx.shard}.xlsx')
         same_object = rng.random() < 0.5     # one model through all points
@@ -305,6 +318,45 @@ def run(ctx):
                 ctx.sample({'cells': build.dict_of(wb), 'point': point,
                             'ext': ext, 'gzip': is_gzip,
                             'cells_compared': len(before['cells'])})
+    # ---- a long formula (hundreds of operands, below Excel's 8192 characters) ----
+    if ctx.shard in (0, 1) or thorough:
+        for n_terms in (60, 120, 250, 400):
+            cells = {f'Sheet1!A{i}': i for i in range(1, n_terms + 1)}
+            cells['Sheet1!B1'] = '=' + '+'.join(
+                f'A{i}' for i in range(1, n_terms + 1))
+            cells['Sheet1!B2'] = '=B1*2'
+            fname = os.path.join(out, f'long{ctx.shard}.json')
+            ctx.event('round_trips')
+            ctx.event('long_formula_round_trips')
+            ctx.case(('long-formula', n_terms))
+            try:
+                model = subject.compile_dict(cells)
+                model.persist_to_json_file(fname)
+                restored = Model()
+                restored.construct_from_json_file(fname, build_code=True)
+                go = subject.outcome_of(
+                    lambda: Evaluator(model).evaluate('Sheet1!B2'))
+                gr = subject.outcome_of(
+                    lambda: Evaluator(restored).evaluate('Sheet1!B2'))
+                if go != gr or go != ('value', ('num', float(
+                        n_terms * (n_terms + 1)))):
+                    ctx.fail(f'model with a formula of {n_terms} operands: '
+                             f'original -> {str(go)[:120]}, restored -> '
+                             f'{str(gr)[:120]}', {'operands': n_terms},
+                             monitor='same-evaluation', group='long-formula')
+            except RecursionError:
+                # mechanism of KF-C12-05: depth of the syntax tree
+                ctx.fail(f'persist / restore of a compiled model holding a '
+                         f'formula of {n_terms} operands raised '
+                         f'RecursionError', {'operands': n_terms},
+                         kf='KF-C12-05' if n_terms >= 150 else None,
+                         monitor='round-trip-raises',
+                         group=f'long-formula-recursion:{n_terms}')
+            finally:
+                try:
+                    os.remove(fname)
+                except OSError:
+                    pass
     for ext in EXTS:
         try:
             os.remove(os.path.join(out, f's{ctx.shard}{ext}'))
